@@ -19,6 +19,8 @@ pub enum NetCmd {
     Step(Tensor, Tensor, i32),
     LayerBackward(usize, Tensor, Tensor),
     LearnTwice { data: Vec<(Tensor, Tensor)>, batch: usize, epochs1: i32, epochs2: i32 },
+    /// several calls on ONE network object (sub-commands: Predict, Backward, Learn, Validate, PredictBatch)
+    Script(Vec<NetCmd>),
     LearnTwiceVal { data: Vec<(Tensor, Tensor)>, val: Vec<(Tensor, Tensor)>, th: i32, batch: usize, epochs1: i32, epochs2: i32 },
 }
 
@@ -224,75 +226,7 @@ impl Case {
             Case::Net(spec, cmd) => {
                 t.push(40);
                 spec.enc(&mut t);
-                match cmd {
-                    NetCmd::Predict(x) => {
-                        t.push(1);
-                        enc_tensor_in(&mut t, x)
-                    }
-                    NetCmd::Forward(x) => {
-                        t.push(2);
-                        enc_tensor_in(&mut t, x)
-                    }
-                    NetCmd::Backward(x, y) => {
-                        t.push(3);
-                        enc_tensor_in(&mut t, x);
-                        enc_tensor_in(&mut t, y)
-                    }
-                    NetCmd::Learn { data, val, batch, epochs } => {
-                        t.push(4);
-                        enc_pairs(&mut t, data);
-                        match val {
-                            Some((v, th)) => {
-                                t.push(1);
-                                enc_pairs(&mut t, v);
-                                t.push(*th as i128)
-                            }
-                            None => t.push(0),
-                        }
-                        push_n(&mut t, *batch);
-                        t.push(*epochs as i128)
-                    }
-                    NetCmd::Validate { data, tol, pre_training } => {
-                        t.push(5);
-                        enc_pairs(&mut t, data);
-                        push_f(&mut t, *tol);
-                        push_b(&mut t, *pre_training)
-                    }
-                    NetCmd::Shapes => t.push(6),
-                    NetCmd::PredictBatch(xs) => {
-                        t.push(7);
-                        push_n(&mut t, xs.len());
-                        xs.iter().for_each(|x| enc_tensor_in(&mut t, x));
-                    }
-                    NetCmd::Step(x, y, s) => {
-                        t.push(8);
-                        enc_tensor_in(&mut t, x);
-                        enc_tensor_in(&mut t, y);
-                        t.push(*s as i128)
-                    }
-                    NetCmd::LearnTwice { data, batch, epochs1, epochs2 } => {
-                        t.push(10);
-                        enc_pairs(&mut t, data);
-                        push_n(&mut t, *batch);
-                        t.push(*epochs1 as i128);
-                        t.push(*epochs2 as i128)
-                    }
-                    NetCmd::LearnTwiceVal { data, val, th, batch, epochs1, epochs2 } => {
-                        t.push(11);
-                        enc_pairs(&mut t, data);
-                        enc_pairs(&mut t, val);
-                        t.push(*th as i128);
-                        push_n(&mut t, *batch);
-                        t.push(*epochs1 as i128);
-                        t.push(*epochs2 as i128)
-                    }
-                    NetCmd::LayerBackward(i, x, g) => {
-                        t.push(9);
-                        push_n(&mut t, *i);
-                        enc_tensor_in(&mut t, x);
-                        enc_tensor_in(&mut t, g)
-                    }
-                }
+                enc_cmd(&mut t, cmd);
             }
             Case::ConnectSeq(spec, calls) => {
                 t.push(41);
@@ -491,6 +425,83 @@ pub fn enc_grads(t: &mut Tok, wg: &[Tensor], bg: &[Option<Tensor>]) {
     }
 }
 
+pub fn enc_cmd(t: &mut Tok, cmd: &NetCmd) {
+    match cmd {
+        NetCmd::Predict(x) => {
+            t.push(1);
+            enc_tensor_in(t, x)
+        }
+        NetCmd::Forward(x) => {
+            t.push(2);
+            enc_tensor_in(t, x)
+        }
+        NetCmd::Backward(x, y) => {
+            t.push(3);
+            enc_tensor_in(t, x);
+            enc_tensor_in(t, y)
+        }
+        NetCmd::Learn { data, val, batch, epochs } => {
+            t.push(4);
+            enc_pairs(t, data);
+            match val {
+                Some((v, th)) => {
+                    t.push(1);
+                    enc_pairs(t, v);
+                    t.push(*th as i128)
+                }
+                None => t.push(0),
+            }
+            push_n(t, *batch);
+            t.push(*epochs as i128)
+        }
+        NetCmd::Validate { data, tol, pre_training } => {
+            t.push(5);
+            enc_pairs(t, data);
+            push_f(t, *tol);
+            push_b(t, *pre_training)
+        }
+        NetCmd::Shapes => t.push(6),
+        NetCmd::PredictBatch(xs) => {
+            t.push(7);
+            push_n(t, xs.len());
+            xs.iter().for_each(|x| enc_tensor_in(t, x));
+        }
+        NetCmd::Step(x, y, s) => {
+            t.push(8);
+            enc_tensor_in(t, x);
+            enc_tensor_in(t, y);
+            t.push(*s as i128)
+        }
+        NetCmd::LearnTwice { data, batch, epochs1, epochs2 } => {
+            t.push(10);
+            enc_pairs(t, data);
+            push_n(t, *batch);
+            t.push(*epochs1 as i128);
+            t.push(*epochs2 as i128)
+        }
+        NetCmd::LearnTwiceVal { data, val, th, batch, epochs1, epochs2 } => {
+            t.push(11);
+            enc_pairs(t, data);
+            enc_pairs(t, val);
+            t.push(*th as i128);
+            push_n(t, *batch);
+            t.push(*epochs1 as i128);
+            t.push(*epochs2 as i128)
+        }
+        NetCmd::Script(cmds) => {
+            t.push(12);
+            push_n(t, cmds.len());
+            cmds.iter().for_each(|c| enc_cmd(t, c));
+        }
+        NetCmd::LayerBackward(i, x, g) => {
+            t.push(9);
+            push_n(t, *i);
+            enc_tensor_in(t, x);
+            enc_tensor_in(t, g)
+        }
+    }
+}
+
 pub fn run_net_cmd(t: &mut Tok, n: &mut network::Network, cmd: &NetCmd) {
     match cmd {
         NetCmd::Predict(x) => enc_tensor_out(t, &n.predict(x)),
@@ -572,6 +583,13 @@ pub fn run_net_cmd(t: &mut Tok, n: &mut network::Network, cmd: &NetCmd) {
                 h.iter().for_each(|e| out_f(t, *e));
             }
             enc_weights(t, n);
+        }
+        NetCmd::Script(cmds) => {
+            for c in cmds {
+                run_net_cmd(t, n, c);
+            }
+            enc_weights(t, n);
+            enc_flags(t, n);
         }
         NetCmd::LearnTwiceVal { data, val, th, batch, epochs1, epochs2 } => {
             let xs = alias_refs(data);
